@@ -6,22 +6,35 @@
    models never produce one: errors are of the documented family (or the input is outside the
    model, EUnsupported - such inputs are skipped by the correspondence).  Termination: the
    models are total functions; the parser recurses on explicit fuel and C06_parse_terminates
-   is stated for it; time inside `re` and inputs nested deeper than 100 levels are outside the
+   shows the fuel always suffices; time inside `re` and inputs nested deeper than 100 levels are outside the
    claim, as the property says. *)
-From JP Require Import Base Json PyStr Syntax Lex Parse Eval Pointer RelPointer Patch Gate ParseProofs FamilyProofs.
+From JP Require Import Base Json PyStr Syntax Lex Parse Eval Pointer RelPointer Patch Gate ParseProofs ParseFuel FamilyProofs.
 
 Definition only (fam : exn -> bool) {A} (r : result A) : Prop :=
   match r with Ok _ => True | Err e => fam e = true \/ outside_model e = true end.
 
-(* any text given as a query: a compiled query, or a JSONPath-family error *)
+(* any text given as a query: a compiled query, or a JSONPath-family error; the parser's explicit
+   fuel (4 * tokens + 16) always suffices, so "out of fuel" is not a possible outcome *)
 Theorem C06_compile :
   forall (E : env) re_ok (text : ustr),
     match compile E re_ok text with
     | Ok _ => True
-    | Err e => jsonpath_family e = true \/ outside_model e = true \/ e = EOutOfFuel
+    | Err e => jsonpath_family e = true \/ outside_model e = true
     end.
-Proof. exact ParseProofs.compile_family. Qed.
+Proof. exact ParseFuel.compile_family_total. Qed.
 Print Assumptions C06_compile.
+
+(* termination of compilation, stated on the fuel: the parser never runs out, for any token list *)
+Theorem C06_parse_terminates :
+  forall (E : env) re_ok (toks : list token), compile_tokens E re_ok toks <> Err EOutOfFuel.
+Proof. exact ParseFuel.compile_tokens_fuel. Qed.
+Print Assumptions C06_parse_terminates.
+
+(* the lexer's fuel (one more than the length of the text) is irrelevant: any larger fuel gives the same tokens *)
+Theorem C06_lex_fuel :
+  forall (E : env) (s : ustr) (k : nat), tokenize_fuel (S (length s) + k) E s = tokenize E s.
+Proof. exact ParseFuel.tokenize_fuel_enough. Qed.
+Print Assumptions C06_lex_fuel.
 
 (* evaluating anything that compiled, on any JSON value and filter context *)
 Theorem C06_eval :
